@@ -249,7 +249,7 @@ func c20(c *vc.Ctx) {
 	c.Assumptions = []string{
 		"bash 5.2.15 is the oracle; compared are the printed value (or that no value was produced = error), $? after the command, whether a diagnostic was written (this tells an error from a zero value in (( )) and let), and x y e u arr (values and indices) i n afterwards; error message texts are not compared",
 		"a program the interpreter rejects at parse time counts as an error; bash must then report an error for the same text, but side effects bash performs before reaching the syntax error are not compared",
-		"the reference evaluator is used only to exclude overflow / out-of-range shift cases, never as an oracle; it is itself compared with bash on every $(( )) case it does not exclude (ref_checked), a disagreement is reported as a failure of the case",
+		"the reference evaluator is used only to exclude overflow / out-of-range shift cases, never as an oracle; it is itself compared with bash on every $(( )) case it does not exclude (ref_checked), a disagreement is reported as a failure of the case. Besides, two class predicates ask it whether the error bash reported was raised inside an operand bash does not evaluate (this only names a failure, it never makes a case pass)",
 	}
 	c.Reruns = 1
 
